@@ -254,7 +254,6 @@ namespace occa {
 
         expr blockIterator(declVarSource, blockIter);
         expr iterator(*oklForSmnt.iterator);
-        expr tileSizeExpr = &tileSize;
 
         initDecls.push_back(
           variableDeclaration(*oklForSmnt.iterator,
@@ -264,10 +263,13 @@ namespace occa {
         // Create check statement
         // Note: At this point, the tile for-loop has an update
         //       with either an [+=] or [-=] update operator
+        //       The inner loop spans exactly one step of the block loop:
+        //       TILE, or (TILE * (INC)) when the original update is [+= INC]
+        expr blockStep = expr::parens(expr(updateExpr.rightValue));
         expr bounds = expr::parens(
           (updateExpr.opType() & operatorType::addEq)
-          ? blockIterator + tileSizeExpr
-          : blockIterator - tileSizeExpr
+          ? blockIterator + blockStep
+          : blockIterator - blockStep
         );
 
         const binaryOperator_t &checkOp = (const binaryOperator_t&) checkExpr.op;
